@@ -180,7 +180,7 @@ def _link(rc: RuleCtx):
         mod = rc.repo.mod(dname)
         errs = []
 
-        def on_error(rule, fname, node, msg, extracted="", expected=""):
+        def on_error(rule, fname, node, msg, extracted="", expected="", construct=None):
             errs.append((fname, node, msg))
         lk.check_module(mod, on_error, lambda *a, **k: None)
         fi = rc.func(f"{dname}.knee")
